@@ -1,6 +1,6 @@
 From Coq Require Import List Arith Lia Permutation Bool Sorting.Sorted.
 Import ListNotations.
-From NS Require Import Base.Res Base.ArrLemmas Sort.Partition Sort.PartitionProofs Sort.Select Sort.SelectProofs.
+From NS Require Import Base.Res Base.ArrLemmas Sort.Partition Sort.PartitionProofs Sort.PartitionRank Sort.Select Sort.SelectProofs.
 
 Section R.
 Variable A : Type.
@@ -9,33 +9,10 @@ Hypothesis leb_total : forall x y, leb x y = true \/ leb y x = true.
 Hypothesis leb_trans : forall x y z, leb x y = true -> leb y z = true -> leb x z = true.
 Notation ltb := (ltb A leb).
 
-Fixpoint countb (p : A -> bool) (l : list A) : nat :=
-  match l with [] => 0 | x :: t => (if p x then 1 else 0) + countb p t end.
-
-Lemma countb_perm p l l' : Permutation l l' -> countb p l = countb p l'.
-Proof. induction 1; simpl; try lia. Qed.
-
-Lemma countb_ge p l m : m <= length l ->
-  (forall k x, k < m -> nth_error l k = Some x -> p x = true) -> m <= countb p l.
-Proof.
-  revert m; induction l as [|h t IH]; intros m Hm H; simpl in *; [lia|].
-  destruct m as [|m]; [lia|].
-  rewrite (H 0 h) by (simpl; auto; lia).
-  specialize (IH m). assert (m <= countb p t).
-  { apply IH; [lia|]. intros k x Hk Hx. apply (H (S k) x); [lia|exact Hx]. }
-  lia.
-Qed.
-
-Lemma countb_le p l m :
-  (forall k x, m <= k -> nth_error l k = Some x -> p x = false) -> countb p l <= m.
-Proof.
-  revert m; induction l as [|h t IH]; intros m H; simpl in *; [lia|].
-  destruct m as [|m].
-  - rewrite (H 0 h) by (simpl; auto; lia).
-    assert (countb p t <= 0). { apply IH. intros k x Hk Hx. apply (H (S k) x); [lia|exact Hx]. } lia.
-  - assert (countb p t <= m). { apply IH. intros k x Hk Hx. apply (H (S k) x); [lia|exact Hx]. }
-    destruct (p h); lia.
-Qed.
+Notation countb := (countb A).
+Notation countb_perm := (countb_perm A).
+Notation countb_ge := (countb_ge A).
+Notation countb_le := (countb_le A).
 
 Definition sorted (s : list A) := forall i j x y, i <= j -> nth_error s i = Some x -> nth_error s j = Some y -> leb x y = true.
 
